@@ -44,6 +44,9 @@ SPEC = {
         "Model/CmapSubset.v; tied to the code by tr_glyfcmap.py's shape pins and by correspondence",
         "ocaml/c15/drv.ml: the composite glyph and cmap judges' reference decoders / encoders over raw byte strings, written "
         "by hand after the OpenType glyf (composite glyph description) and cmap chapters (independent of the extracted model)",
+        "ocaml/c15/drv.ml: the item variation store judge's reference decoders (ItemVariationData row length with LONG_WORDS, "
+        "VariationRegionList, ItemVariationStore with Offset32 fields, CFF2 VariationStore data = uint16 length + store), written by hand "
+        "after the OpenType 'Font Variations Common Table Formats' and CFF2 chapters; these structures have no Coq model - the judge alone decides",
     ],
     "assumptions": [
         "buffers are shorter than 2^64 bytes; usize is 64 bits",
@@ -64,7 +67,8 @@ SPEC = {
         "format 2; exactness and refusal of the length / count fields are stated for ALL values; sub-tables are written into a "
         "fresh buffer (start = 0); Format4Calculator's f64 log2 is Z.log2 on 1..32767",
     ],
-    "rule": "cases per kind (see harness/src/bin/c15.rs gen): struct values with every field drawn from {min, max, 0, "
+    "rule": "item variation stores, 8% of the cases (harness/src/c15_ivs.rs; judged, no Coq model): ItemVariationData bytes (LONG_WORDS set in half of them, wordDeltaCount 0 / = / > regionIndexCount, itemCount 0 / 1 / 256.., no regions, region indexes at u16 edges, the packed wordDeltaCount overwritten with 0x8000 / 0x8001 / 0x7fff / 0xffff), VariationRegionList bytes (0 axes, 0 regions, reserved bit), ItemVariationStore bytes in the writer's layout and with gaps / sub-tables first / shared sub-tables, 1 in 4 mutated or with trailing bytes -> read -> write (fresh buffer and behind 3 other bytes) -> read -> write; the CFF2 table of the fixture fonts -> read -> write -> the VariationStore data located through the written header and Top DICT. Other kinds: "
+            "cases per kind (see harness/src/bin/c15.rs gen): struct values with every field drawn from {min, max, 0, "
             "near-min, near-max, small, uniform} of its type -> write -> read (9 straight-line layouts, maxp, OS/2 incl. "
             "ill-nested tails, hmtx, loca owned writer incl. odd / > 131070 offsets, owned name tables incl. strings "
             "straddling 64K, CFF integers around every range edge, offset arrays around 2^8/2^16/2^24/2^32, owned INDEX "
